@@ -31,8 +31,11 @@ def _worker(pid, case_name, tier, seed):
     mod = importlib.import_module(f"harness.{pid.lower()}")
     case = Case(pid, case_name, tier, seed, harness=mod)
     t0 = time.time()
+    import contextlib, io
+    sink = io.StringIO()
     try:
-        mod.run_case(case, case_name)
+        with contextlib.redirect_stdout(sink):  # the repository prints warnings (developer mode etc.)
+            mod.run_case(case, case_name)
     except E.SymControl as ex:
         case.rep["harness_errors"].append(f"{case_name}: {type(ex).__name__}: {ex}\n{traceback.format_exc()[-1500:]}")
     except Exception as ex:
